@@ -3,8 +3,8 @@
    invariant: not proved (sampled through the correspondence, see DESIGN.md). The withdrawal bounds are stated for
    the code after the repair `fix: withdraw_liquidity pays the exact pro-rata share` (before it the share ratio was
    truncated to 18 digits and the literal lower bound was false; recorded as fixed in known_findings.json). *)
-From MD.Model Require Import Base Ownable Epoch PoolMath Types PoolManager.
-From MD.Proofs Require Import PoolMathProofs SwapProofs PmProofs LiquidityProofs.
+From MD.Model Require Import Base Ownable Epoch PoolMath Types PoolManager FarmManager Chain.
+From MD.Proofs Require Import PoolMathProofs SwapProofs PmProofs LiquidityProofs BankProofs TxBalances.
 
 (* constant-product deposit: LP minted = min(floor(a*S/x), floor(b*S/y)) is never more than the depositor's
    proportional contribution in either asset ... *)
@@ -61,6 +61,20 @@ Theorem C02_lp_minted_only_by_deposits_burned_only_by_withdrawals : forall w sen
   end.
 Proof. exact pm_mint_burn_only_liquidity. Qed.
 
+(* THE WHOLE TRANSACTION, every bank balance: a withdrawal pays the sender exactly the floored pro-rata refunds out of
+   the pool manager, destroys exactly the LP sent, and changes no other balance *)
+Theorem C02_withdrawal_transaction_moves_exactly_these_balances : forall w sender funds pid w',
+  run_tx w sender PM (WPm (PmWithdraw pid)) funds = Ok w' ->
+  exists p amount total,
+    pool_find (w_pm w) pid = Ok p /\ must_pay funds (p_lp p) = Ok amount /\ supply (w_bank w) (p_lp p) = total /\
+    let refunds := filter (fun c => 0 <? amount_of c) (map (fun a => (denom_of a, withdraw_refund (amount_of a) amount total)) (p_assets p)) in
+    forall a d,
+      bal (w_bank w') a d = bal (w_bank w) a d
+        - ind (String.eqb a sender) (camt funds d) + ind (String.eqb a PM) (camt funds d)
+        - ind (String.eqb a PM) (camt refunds d) + ind (String.eqb a sender) (camt refunds d)
+        - ind (String.eqb a PM) (ind (String.eqb (p_lp p) d) amount).
+Proof. exact withdraw_tx_balances. Qed.
+
 Print Assumptions C02_cp_mint_at_most_proportional.
 Print Assumptions C02_cp_deposit_never_dilutes.
 Print Assumptions C02_cp_first_deposit.
@@ -69,3 +83,4 @@ Print Assumptions C02_withdraw_at_most_pro_rata.
 Print Assumptions C02_withdraw_at_least_pro_rata_minus_one.
 Print Assumptions C02_redeemable.
 Print Assumptions C02_lp_minted_only_by_deposits_burned_only_by_withdrawals.
+Print Assumptions C02_withdrawal_transaction_moves_exactly_these_balances.
